@@ -36,7 +36,7 @@ func verifAInductiveStep(free int) {
 	st := f.state
 
 	pre := make([]verifAPre, 3)
-	for h := range verifAHosts {
+	for h := range verifAHosts[:3] {
 		// hosts below `free`: any past (new or known) and may leave; the others
 		// were listed and stay; host c is healthy and passing (keeps the list
 		// at >= 2 hosts together with one more)
@@ -68,7 +68,7 @@ func verifAInductiveStep(free int) {
 	}
 
 	addrs := stringset.New()
-	for h := range verifAHosts {
+	for h := range verifAHosts[:3] {
 		listed := h >= free || verif.Choice("listed", 2) == 1
 		if pre[h].present && !listed {
 			verif.Reach("host-left")
@@ -82,7 +82,7 @@ func verifAInductiveStep(free int) {
 
 	got := f.Run(addrs)
 
-	for h, addr := range verifAHosts {
+	for h, addr := range verifAHosts[:3] {
 		if !addrs.Has(addr) {
 			// left (or never there): forgotten completely
 			verif.Assert("absent-host-not-in-all", !st.all.Has(addr))
